@@ -4,9 +4,12 @@ import (
 	"fmt"
 	"strings"
 
+	"github.com/glycerine/zygomys/v9/zygo"
+
 	"verif/internal/engine"
 	"verif/internal/gen"
 	. "verif/internal/ref"
+	"verif/internal/zy"
 )
 
 // C15 — macro templates expand by exact substitution.
@@ -394,6 +397,56 @@ func c15emptyHash(c *engine.Ctx, only string) {
 	}
 }
 
+// c15fresh: every evaluation of a template builds its own containers: writing into the array of one expansion changes
+// neither another expansion nor the next one.
+func c15fresh(c *engine.Ctx, only string) {
+	// template, path from the expansion to an array inside it ($ is the expansion)
+	cases := [][2]string{{"[0 0 0]", "$"}, {"(a [0 0 0])", "(car (cdr $))"}, {"(~x [0 1])", "(car (cdr $))"}, {"[~x 0]", "$"}, {"[[0] 1]", "(aget $ 0)"}, {"[a b]", "$"}, {"[\"s\" 1.5]", "$"},
+		{"([0] [0])", "(car $)"}, {"(~@xs [0 0])", "(car (cdr (cdr $)))"}, {"[]", "$"}, {"[nil]", "$"}, {"[true 'c']", "$"}}
+	for _, cs := range cases {
+		for _, route := range []string{"function", "macro-quote", "toplevel-loop"} {
+			w := "FRESH|" + cs[0] + "|" + route
+			if !(only == "" && c.Mine() || only == w) {
+				continue
+			}
+			c.Begin(w)
+			tr := zy.NewTraced(false)
+			zygo.VerifSetStepBudget(200000)
+			tr.Run(layout(c15prelude(), 0))
+			tr.Run("(def x 5) (def xs (list 1 2))")
+			switch route {
+			case "function":
+				tr.Run("(defn mk15 [] ^" + cs[0] + ") (def r1 (mk15)) (def r2 (mk15))")
+			case "macro-quote":
+				tr.Run("(defmac mk15 [] ^(quote " + strings.NewReplacer("~x", "5", "~@xs", "1 2").Replace(cs[0]) + ")) (def r1 (mk15)) (def r2 (mk15))")
+			case "toplevel-loop":
+				tr.Run("(def rs []) (for [(def i 0) (< i 2) (set i (+ i 1))] (set rs (append rs ^" + cs[0] + "))) (def r1 (aget rs 0)) (def r2 (aget rs 1))")
+			}
+			before := tr.Run("(str r2)")
+			path1 := strings.ReplaceAll(cs[1], "$", "r1")
+			wr := tr.Run("(def arr15 " + path1 + ") (set arr15 (append arr15 99)) (cond (> (len " + path1 + ") 0) (aset " + path1 + " 0 42) nil)")
+			after := tr.Run("(str r2)")
+			third := ""
+			if route != "toplevel-loop" {
+				third = tr.Run("(str (mk15))").Short()
+			}
+			tr.Env.Close()
+			viol := func(clause, detail string) { c.Violation(clause, "C15/fresh-"+clause+"/"+route, w, detail) }
+			switch {
+			case before.Panic != "" || wr.Panic != "" || after.Panic != "":
+				viol("panic", before.Panic+wr.Panic+after.Panic)
+			case !before.OK() || !after.OK():
+				c.Count("fresh_not_judged", 1)
+			case before.Short() != after.Short():
+				viol("shared", fmt.Sprintf("two expansions of ^%s (%s): after writing into the first one, the second one changed from %s to %s", cs[0], route, before, after))
+			case third != "" && third != before.Short():
+				viol("next", fmt.Sprintf("^%s (%s): after writing into the first expansion, the next expansion is %s instead of %s", cs[0], route, third, before))
+			}
+			c.Outcome("FRESH|" + cs[0] + "|" + route + "|" + after.Short())
+		}
+	}
+}
+
 func init() {
 	engine.Register(&engine.Check{
 		ID:    "C15",
@@ -436,6 +489,7 @@ func init() {
 				c15containers(pool2, w2, func(t *T) bool { return run(t, "nested") })
 			}
 			c15emptyHash(c, "")
+			c15fresh(c, "")
 			// macros
 			argf := c15argForms()
 			for _, m := range c15macros {
@@ -485,6 +539,13 @@ func init() {
 			}
 		},
 		Replay: func(c *engine.Ctx, w string) {
+			if strings.HasPrefix(w, "FRESH|") {
+				c15fresh(c, w)
+				for i := range c.Viol {
+					c.Viol[i].Key = "*"
+				}
+				return
+			}
 			if strings.HasPrefix(w, "E|") {
 				c15emptyHash(c, w)
 				for i := range c.Viol {
